@@ -5,7 +5,8 @@
    NaN (mean of an empty array, 0/0) is Err E_NAN / None on the code side. *)
 From Coq Require Import ZArith List QArith Qcanon Sorted.
 From Batchie Require Import Lib.Sexp Lib.Num Model.Metrics Model.Synergy Model.Corr
-  Proofs.C20Spec Proofs.C20Base Proofs.C20Metrics Proofs.C20Synergy Proofs.C20Corr.
+  Proofs.C20Spec Proofs.C20Base Proofs.C20Metrics Proofs.C20Synergy Proofs.C20Corr
+  Generated.SrcSynergy Proofs.C20Source Generated.SrcMetrics Proofs.C20SourceMetrics Generated.SrcSpace Proofs.C20SourceSpace.
 Import ListNotations.
 
 (* ---- ModelEvaluation ----  e is any evaluation the constructor accepts: n = length P experiments,
@@ -182,6 +183,112 @@ Theorem C20_corr_over_full_space : forall orc f mapping smap arity T rows index 
 Proof. exact correlation_matrix_over_full_space. Qed.
 Print Assumptions C20_corr_over_full_space.
 
+(* ---- source-translation links ----  Generated/SrcSynergy.v is re-translated from /repo on every run (harness/py2gal.py,
+   configurations C20_* of harness/src_functions.py); arity = treatment_ids.shape[1].  No side condition. *)
+
+(* data.py create_single_treatment_effect_map (arity raise, the mask, the three masked arrays, both loops over np.unique,
+   the control entry, the mask of matching single-agent rows, np.any, the mean, the dict stores) = Synergy.effect_map *)
+Theorem C20_model_is_source_create_single_treatment_effect_map :
+  forall (arity : nat) (sids : list Z) (tids : list (list Z)) (obs : list Qc),
+  src_create_single_treatment_effect_map arity sids tids obs = effect_map arity sids tids obs.
+Proof. exact src_effect_map_is_model. Qed.
+Print Assumptions C20_model_is_source_create_single_treatment_effect_map.
+
+(* data.py create_single_treatment_effect_array (the translated map, np.ones_like, both enumerate loops, the dict read
+   with its KeyError, the store result[idx, treatment_idx] = ...) = Synergy.effect_array *)
+Theorem C20_model_is_source_create_single_treatment_effect_array :
+  forall (arity : nat) (sids : list Z) (tids : list (list Z)) (obs : list Qc),
+  src_create_single_treatment_effect_array arity sids tids obs = effect_array arity sids tids obs.
+Proof. exact src_effect_array_is_model. Qed.
+Print Assumptions C20_model_is_source_create_single_treatment_effect_array.
+
+(* synergy.py calculate_synergy (the three raises, the translated map, the mask and its negation, the loop over the
+   multi-treatment rows, the inner loop with the strict raise / lenient continue, the length comparison, np.prod minus
+   the observation, the three appends, np.array of the results) = Synergy.calculate_synergy *)
+Theorem C20_model_is_source_calculate_synergy :
+  forall (arity : nat) (sids : list Z) (tids : list (list Z)) (obs : list Qc) (strict : bool),
+  src_calculate_synergy arity sids tids obs strict = calculate_synergy strict arity sids tids obs.
+Proof. exact src_calculate_synergy_is_model. Qed.
+Print Assumptions C20_model_is_source_calculate_synergy.
+
+(* hence the definitional theorems are theorems about the translated source *)
+Theorem C20_source_synergy_def : forall arity sids tids obs,
+  (2 <= arity)%nat -> length sids = length tids -> length obs = length tids ->
+  Forall (fun r => length r = arity) tids -> Forall (Forall valid_id) tids ->
+  forall strict, src_calculate_synergy arity sids tids obs strict = synergy_def sids tids obs strict.
+Proof. exact src_synergy_is_definition. Qed.
+Print Assumptions C20_source_synergy_def.
+
+Theorem C20_source_effect_array_def : forall arity sids tids obs,
+  (2 <= arity)%nat -> length sids = length tids -> length obs = length tids ->
+  Forall (fun r => length r = arity) tids -> Forall (Forall valid_id) tids ->
+  src_create_single_treatment_effect_array arity sids tids obs = effect_array_def sids tids obs.
+Proof. exact src_effect_array_is_definition. Qed.
+Print Assumptions C20_source_effect_array_def.
+
+(* models/main.py ModelEvaluation.mse / mse_variance / inter_chain_mse_variance (Generated/SrcMetrics.v), through the
+   translated properties predictions / observations / chain_ids.  e is any object the constructor builds (the hypothesis
+   holds of every reachable ModelEvaluation: __init__ is the only way to make one), m = predictions.shape[1]. *)
+Theorem C20_model_is_source_mse : forall m P o ch nm e,
+  mk_eval m P o ch nm = Ok e -> src_ev_mse e = ev_mse e.
+Proof. exact src_ev_mse_is_model. Qed.
+Print Assumptions C20_model_is_source_mse.
+
+Theorem C20_model_is_source_mse_variance : forall m P o ch nm e,
+  mk_eval m P o ch nm = Ok e -> src_ev_mse_variance e = ev_mse_variance e.
+Proof. exact src_ev_mse_variance_is_model. Qed.
+Print Assumptions C20_model_is_source_mse_variance.
+
+Theorem C20_model_is_source_inter_chain_mse_variance : forall m P o ch nm e,
+  mk_eval m P o ch nm = Ok e -> src_ev_inter_chain_mse_variance m e = ev_inter_chain e.
+Proof. exact src_ev_inter_chain_is_model. Qed.
+Print Assumptions C20_model_is_source_inter_chain_mse_variance.
+
+(* ModelEvaluation.__init__ = the model's constructor: the objects of the hypotheses above are exactly what the translated
+   constructor returns (dtype guards: true of the arrays the wire carries) *)
+Theorem C20_model_is_source_init : forall (self : evaluation) (ncols : nat) P o ch nm,
+  src_ev_init self ncols P o ch nm = mk_eval ncols P o ch nm.
+Proof. exact src_ev_init_is_model. Qed.
+Print Assumptions C20_model_is_source_init.
+
+Theorem C20_model_is_source_mean_predictions : forall m P o ch nm e,
+  mk_eval m P o ch nm = Ok e -> src_ev_mean_predictions e = ev_mean_predictions e.
+Proof. exact src_ev_mean_predictions_is_model. Qed.
+Print Assumptions C20_model_is_source_mean_predictions.
+
+(* models/main.py predict_viability_avg and retrospective.py calculate_mse (Generated/SrcMetrics.v): the thetas are the
+   list of the prediction vectors they give on the screen, the observed screen is its observations.  No side condition. *)
+Theorem C20_model_is_source_predict_viability_avg : forall (size : nat) (pt : list (list Qc)),
+  src_predict_viability_avg size pt
+  = if negb (forallb (fun r => Nat.eqb (length r) size) pt) then Err E_VALUE
+    else match pt, size with
+         | [], O => Ok []
+         | [], _ => Err E_NAN
+         | _, _ => Ok (predict_avg size pt)
+         end.
+Proof. exact src_predict_viability_avg_is_model. Qed.
+Print Assumptions C20_model_is_source_predict_viability_avg.
+
+Theorem C20_model_is_source_calculate_mse : forall (pt : list (list Qc)) (obs : list Qc),
+  src_calculate_mse pt obs = calculate_mse pt obs.
+Proof. exact src_calculate_mse_is_model. Qed.
+Print Assumptions C20_model_is_source_calculate_mse.
+
+(* models/main.py combination_count and generate_full_combinatoric_space (Generated/SrcSpace.v).  The translation works on
+   mapping rows ((name, dose), id); the model on rows (key, id): [key] is any numbering of the (name, dose) pairs that is
+   injective on the pairs of the mapping's rows (the harness numbers the distinct pairs). *)
+Theorem C20_model_is_source_combination_count : forall n k : nat,
+  src_combination_count (Z.of_nat n) (Z.of_nat k) = combination_count n k.
+Proof. exact src_combination_count_is_model. Qed.
+Print Assumptions C20_model_is_source_combination_count.
+
+Theorem C20_model_is_source_generate_full_combinatoric_space : forall (key : Z * Z -> Z) (tm : tmap3),
+  (forall a b, In a (map fst tm) -> In b (map fst tm) -> key a = key b -> a = b) ->
+  forall (sm : list (Z * Z)) (arity : nat) (sample_id : Z),
+  src_generate_full_combinatoric_space tm sm arity sample_id = full_space (key_rows key tm) sm arity sample_id.
+Proof. exact src_full_space_is_model. Qed.
+Print Assumptions C20_model_is_source_generate_full_combinatoric_space.
+
 (* ---- non-vacuity: concrete instances (vm_compute) ---- *)
 Definition q (n : Z) (d : positive) : Qc := Q2Qc (n # d).
 
@@ -238,3 +345,21 @@ Proof. vm_compute. reflexivity. Qed.
 Example C20_calculate_mse_example :
   of_result of_Qc (calculate_mse [[q 1 1; q 0 1]; [q 0 1; q 1 1]] [q 1 2; q 1 1]) = SL [SZ 0; SL [SZ 1; SZ 8]].
 Proof. vm_compute. reflexivity. Qed.
+
+(* the source links are not vacuous: the translated functions compute the values of the examples above, and the key
+   hypothesis of the space link is satisfiable (names 10, 11, 13; doses 1, 2, 5; key = 100 * name + dose) *)
+Definition ex_tm : tmap3 := [((10, 1), -1); ((11, 5), 0); ((10, 2), -1); ((13, 1), 1)]%Z.
+Definition ex_key (p : Z * Z) : Z := (100 * fst p + snd p)%Z.
+Example C20_source_examples :
+  src_calculate_synergy 2 ex_s ex_t ex_o false = calculate_synergy false 2 ex_s ex_t ex_o
+  /\ src_calculate_synergy 2 ex_s ex_t ex_o true = Err E_VALUE
+  /\ src_create_single_treatment_effect_array 2 ex_s ex_t ex_o = Err E_KEY
+  /\ (forall a b, In a (map fst ex_tm) -> In b (map fst ex_tm) -> ex_key a = ex_key b -> a = b)
+  /\ key_rows ex_key ex_tm = [(1001, -1); (1105, 0); (1002, -1); (1301, 1)]%Z
+  /\ src_generate_full_combinatoric_space ex_tm [(5, 0); (6, 1)]%Z 2 1%Z
+     = Ok ([1; 1; 1; 1; 1; 1]%Z, [[-1; 0]; [-1; -1]; [-1; 1]; [0; -1]; [0; 1]; [-1; 1]]%Z).
+Proof.
+  repeat split; try (vm_compute; reflexivity).
+  intros a b Ha Hb. cbn in Ha, Hb.
+  repeat match goal with H : _ \/ _ |- _ => destruct H as [H|H] end; try contradiction; subst; vm_compute; intros E; try reflexivity; discriminate.
+Qed.
